@@ -33,7 +33,7 @@ UNIT = dict(
         'the lambdas passed to do_pop are lifted to functions (closure = pointer to the captured result)',
   assumptions=['stub nikolaev_scq: sequential contract of unit scq (enqueue appends / dequeue takes first / false iff empty)',
                'SEQ only: linearizability of the composition under interleaving is the lemma of C05'],
-  consts=[dict(name='indexes_per_cacheline', file=S, regex=r'static constexpr std::size_t indexes_per_cacheline = ([^;]+);',
+  consts=[dict(name='XV_POP_OPTIONAL_TARGET', file=Q, regex=r'::pop\(\) -> std::optional<value_type> \{\s*return (\w+)\(\s*\[\]\(auto& v\)'), dict(name='indexes_per_cacheline', file=S, regex=r'static constexpr std::size_t indexes_per_cacheline = ([^;]+);',
                subst=[(r'cacheline_size / sizeof\(index_t\)', '64 / sizeof(uint64_t)')])],
   sources=[
     dict(id='is_power_of_two', file=U, sig=r'constexpr bool is_power_of_two\(T val\)', c_sig='static _Bool is_power_of_two(uint64_t val)', must_fire={}),
@@ -60,6 +60,10 @@ UNIT = dict(
          subst=[(r'\bresult\b', '(*result_p)', 'result_ref'), (r'\bv\b', '(*v_p)', 'v_ref')],
          must_fire={'subst:move_assign': 1, 'subst:result_ref': 1, 'subst:v_ref': 1}),
     dict(id='try_pop_empty', file=Q, sig=r'\[\]\(\)(?=\s*\{)', c_sig='static _Bool nbq_try_pop_empty(void)', must_fire={}),
+    # pop(): the std::optional flavour - its two lambdas, extracted as functions (std::optional<value_type> is a {present, value} pair; constructing it from std::move(v) is XV_OPT_FROM_MOVED)
+    dict(id='pop_success', file=Q, sig=r'\[\]\(auto& v\) -> std::optional<value_type> ', c_sig='static struct xv_opt nbq_pop_success(T* v_p)',
+         pre_subst=[(r'return std::move\((\w+)\);', r'return XV_OPT_FROM_MOVED(\1);', 'opt_from_moved')], subst=[(r'\bv\b', '(*v_p)', 'v_ref')], must_fire={'subst:opt_from_moved': 1, 'subst:v_ref': 1}),
+    dict(id='pop_empty', file=Q, sig=r'\[\]\(\) -> std::optional<value_type> ', c_sig='static struct xv_opt nbq_pop_empty(void)', pre_subst=[(r'std::nullopt', 'XV_NULLOPT', 'nullopt')], must_fire={'subst:nullopt': 1}),
     dict(RING, id='do_pop', file=Q, sig=r'auto nikolaev_bounded_queue<T, Policies\.\.\.>::do_pop\(SuccessFunc successFunc, EmptyFunc emptyFunc\)',
          c_sig='static _Bool nbq_do_pop(struct nbq* self, T* successFunc, int emptyFunc)',
          calls={'successFunc': 'XV_CALL_SUCCESS', 'emptyFunc': 'XV_CALL_EMPTY'},
@@ -71,12 +75,14 @@ UNIT = dict(
          must_fire={'lambda': 2, 'subst:result_ref': 1, 'self_call:do_pop': 1}),
   ],
   runs=[
+    dict(id='pop_optional', entry='h_pop_optional', cls='unbounded', note='the functors of pop() against those of try_pop, every element value'),
     dict(id='ctor', entry='h_ctor', unwindset=['find_last_bit_set.0:66'], unwind=3, cls='unbounded',
          note='every requested capacity 1..2^32 (symbolic), composed with the real next_power_of_two / calc_remap_shift / find_last_bit_set'),
   ] + [dict(id='%s_c%d' % (op, c), entry='h_' + op, defs={'CAP': c}, unwind=c + 2, tiers=tiers, cls='shape-complete',
             note='from ANY state of Inv_Q: arbitrary permutation of the indices split anywhere between the allocated and the free ring, arbitrary cell contents')
        for op in ('push', 'pop', 'dtor') for c, tiers in ((1, ['quick', 'thorough']), (2, ['quick', 'thorough']), (4, ['quick', 'thorough']), (8, ['thorough']))],
   obligations={
+    'nbq.pop_optional.same_as_try_pop': dict(deciding=True, text='pop() forwards to the same do_pop as try_pop; its success functor moves the element out of the cell exactly as try_pop does (the optional holds the value, the cell is left moved-from and alive for do_pop to destroy), its empty functor yields an empty optional'),
     'nbq.ctor.capacity': dict(deciding=True, text='capacity() is the smallest power of two >= the requested capacity (1..2^32), _remap_shift = calc_remap_shift(capacity()), storage has capacity() cells'),
     'nbq.ctor.rings': dict(deciding=True, text='allocated ring constructed empty, free ring constructed full, both with (capacity(), _remap_shift)'),
     'nbq.scq.requires': dict(deciding=True, text='every ring operation is called with (capacity(), _remap_shift), an index < capacity that is not in that ring, on a ring that is not finalized'),
@@ -92,6 +98,6 @@ UNIT = dict(
     'nbq.dtor.owns': dict(deciding=True, text='the destructor destroys exactly the cells whose index is in the allocated ring, each once; no live cell remains'),
   },
   replays={k: dict(src='replay_nbq.cpp') for k in ('nbq.push.full_iff', 'nbq.push.appends', 'nbq.push.rejected_untouched', 'nbq.pop.empty_iff', 'nbq.pop.takes_first', 'nbq.own.exactly_once', 'nbq.dtor.owns', 'nbq.inv.preserved')},
-  canaries=['ctor.rounded', 'ctor.exact', 'ctor.min', 'ctor.max', 'push.full', 'push.stored', 'push.last_slot', 'pop.empty', 'pop.took', 'pop.from_full',
+  canaries=['pop_optional.reached', 'ctor.rounded', 'ctor.exact', 'ctor.min', 'ctor.max', 'push.full', 'push.stored', 'push.last_slot', 'pop.empty', 'pop.took', 'pop.from_full',
             'dtor.full', 'dtor.empty', 'dtor.some'],
 )
